@@ -93,7 +93,7 @@ Proof.
   assert (Hi : i < g) by lia. assert (Hjg : j < g) by lia.
   rewrite nth_firstn_lt in Hi', Hj' by auto.
   rewrite nth_skipn_add in Hi', Hj'.
-  specialize (Hgap (a + i) (a + j)). lia.
+  specialize (Hgap (a + i) (a + j) ltac:(lia) Hi' Hj'). lia.
 Qed.
 
 (* ------------------------------------------------------------------ scatter *)
@@ -179,17 +179,19 @@ Proof.
   apply map_length.
 Qed.
 
+Lemma nth_map_lt {A B} (f : A -> B) l t d d' : t < length l -> nth t (map f l) d' = f (nth t l d).
+Proof.
+  intros H. rewrite nth_indep with (d' := f d) by (rewrite map_length; auto). apply map_nth.
+Qed.
+
 Lemma time_first_nth steps trains t j : t < steps ->
   nth j (nth t (time_first steps trains) []) false = nth t (nth j trains []) false.
 Proof.
   intros Ht. unfold time_first.
-  rewrite nth_indep with (d' := map (fun tr : list bool => nth 0 tr false) trains)
-    by (rewrite map_length, seq_length; auto).
-  rewrite map_nth with (f := fun t => map (fun tr : list bool => nth t tr false) trains).
+  rewrite nth_map_lt with (d := 0) by (rewrite seq_length; auto).
   rewrite seq_nth by auto. simpl.
   destruct (Nat.lt_ge_cases j (length trains)) as [Hj|Hj].
-  - rewrite nth_indep with (d' := (fun tr : list bool => nth t tr false) []) by (rewrite map_length; auto).
-    rewrite map_nth. auto.
+  - rewrite nth_map_lt with (d := []) by auto. auto.
   - rewrite nth_overflow by (rewrite map_length; auto).
     rewrite (nth_overflow trains) by auto. destruct t; auto.
 Qed.
@@ -230,8 +232,7 @@ Qed.
 Lemma column_nth {A} (d : A) j rows t : nth t (column d j rows) d = nth j (nth t rows []) d.
 Proof.
   unfold column. destruct (Nat.lt_ge_cases t (length rows)) as [H|H].
-  - rewrite nth_indep with (d' := (fun row => nth j row d) []) by (rewrite map_length; auto).
-    rewrite map_nth. auto.
+  - rewrite nth_map_lt with (d := []) by auto. auto.
   - rewrite nth_overflow by (rewrite map_length; auto). rewrite (nth_overflow rows) by auto.
     destruct j; auto.
 Qed.
@@ -250,11 +251,12 @@ Qed.
 Lemma cumsumZ_from_length acc l : length (cumsumZ_from acc l) = length l.
 Proof. revert acc; induction l; intros; simpl; auto. Qed.
 
-Lemma cumsumZ_from_lb (lo : Z) l : Forall (fun d => (lo <= d)%Z) l ->
-  forall acc k, k < length l -> (acc + Z.of_nat (S k) * lo <= nth k (cumsumZ_from acc l) 0)%Z.
+Lemma cumsumZ_from_lb l : Forall (fun d => (1 <= d)%Z) l ->
+  forall acc k, k < length l -> (acc + Z.of_nat (S k) <= nth k (cumsumZ_from acc l) 0)%Z.
 Proof.
-  induction l as [|x t IH]; intros H acc k Hk; simpl in *; [lia|].
-  inversion H; subst. destruct k; [lia|].
+  induction l as [|x t IH]; intros H acc k Hk; [simpl in Hk; lia|].
+  inversion H; subst. cbn [length] in Hk. cbn [cumsumZ_from nth].
+  destruct k; [lia|].
   specialize (IH H3 (acc + x)%Z k ltac:(lia)). lia.
 Qed.
 
@@ -310,21 +312,21 @@ Proof.
   revert ivs draws outs raised; induction steps as [|m IH]; intros ivs draws outs raised Hlen H; simpl in H.
   - inversion H; subst. repeat split; auto.
   - destruct (guard _).
-    + destruct (online_loop _ _ _ _ _ _ _ _ m) as [rest r] eqn:E. inversion H; subst.
-      apply IH in E; [|rewrite refill_length; rewrite map_length; auto].
-      destruct E as [H1 [H2 H3]]. repeat split; simpl; try lia.
+    + destruct (online_loop _ _ _ _ _ _ _ _ m) as [rest r] eqn:Eq. inversion H; subst.
+      apply IH in Eq; [|rewrite refill_length; rewrite ?map_length; auto].
+      destruct Eq as [H1 [H2 H3]]. repeat split; simpl; try lia.
       * intros Hr. rewrite H2; auto.
       * constructor; auto. apply fires_length. rewrite map_length; auto.
-    + inversion H; subst. repeat split; simpl; try lia; auto. discriminate.
+    + inversion H; subst. repeat split; simpl; try lia; auto; try discriminate.
 Qed.
 
 Lemma online_loop_total ps ivs draws steps :
   snd (online_loop dec fire renew edef (fun _ => true) ps ivs draws steps) = false.
 Proof.
   revert ivs draws; induction steps as [|m IH]; intros; simpl; auto.
-  destruct (online_loop _ _ _ _ _ _ _ _ m) as [rest r] eqn:E. simpl.
+  destruct (online_loop _ _ _ _ _ _ _ _ m) as [rest r] eqn:Eq. simpl.
   specialize (IH (refill renew edef (map dec ivs) (fires fire ps (map dec ivs)) ps (hd [] draws)) (tl draws)).
-  rewrite E in IH. auto.
+  rewrite Eq in IH. auto.
 Qed.
 
 (* the guarded loop yields a prefix of what the unguarded loop yields; all of it if it does not raise *)
@@ -335,10 +337,10 @@ Lemma online_loop_guard_prefix guard ps ivs draws steps outs raised :
 Proof.
   revert ivs draws outs raised; induction steps as [|m IH]; intros ivs draws outs raised H; simpl in *.
   - inversion H; subst. exists []; auto.
-  - destruct (online_loop _ _ _ _ (fun _ => true) _ _ _ m) as [rest1 r1] eqn:E1.
+  - destruct (online_loop _ _ _ _ (fun _ => true) _ _ _ m) as [rest1 r1] eqn:Eq1.
     destruct (guard _).
-    + destruct (online_loop _ _ _ _ guard _ _ _ m) as [rest r] eqn:E. inversion H; subst.
-      apply IH in E. destruct E as [rest2 [Hr Hn]]. rewrite E1 in Hr. simpl in Hr. subst.
+    + destruct (online_loop _ _ _ _ guard _ _ _ m) as [rest r] eqn:Eq. inversion H; subst.
+      apply IH in Eq. destruct Eq as [rest2 [Hr Hn]]. rewrite Eq1 in Hr. simpl in Hr. subst.
       exists rest2. simpl. auto.
     + inversion H; subst. simpl. eexists; split; eauto. discriminate.
 Qed.
@@ -355,7 +357,7 @@ Proof.
   intros Hd. induction steps as [|m IH]; intros ivs draws outs raised Hok Hlen H j p i Hp Hi; simpl in H.
   - inversion H; subst. constructor.
   - destruct (guard _); [|inversion H; subst; constructor].
-    destruct (online_loop _ _ _ _ _ _ _ _ m) as [rest r] eqn:E. inversion H; subst. clear H.
+    destruct (online_loop _ _ _ _ _ _ _ _ m) as [rest r] eqn:Eq. inversion H; subst. clear H.
     assert (Hhd : Forall ok (hd [] draws)) by (destruct draws; simpl; auto; inversion Hok; auto).
     assert (Htl : Forall (Forall ok) (tl draws)) by (destruct draws; simpl; auto; inversion Hok; auto).
     assert (Hi1 : nth_error (map dec ivs) j = Some (dec i)) by (rewrite nth_error_map, Hi; auto).
@@ -365,8 +367,8 @@ Proof.
     assert (Hlen' : length ps = length (refill renew edef (map dec ivs) (fires fire ps (map dec ivs)) ps (hd [] draws)))
       by (rewrite refill_length; rewrite ?map_length; auto).
     destruct Hcase as [[Hq Hn]|[Hs [e [He Hn]]]].
-    + rewrite Hq. apply et_quiet; auto. eapply IH; eauto.
-    + rewrite Hs. eapply et_spike; eauto. eapply IH; eauto.
+    + rewrite Hq. apply et_quiet; auto; try (eapply IH; eauto).
+    + rewrite Hs. eapply et_spike; eauto; try (eapply IH; eauto).
 Qed.
 
 (* an element whose test never succeeds never spikes *)
@@ -376,7 +378,7 @@ Lemma elem_trace_never (ok : E -> Prop) p :
 Proof.
   intros Hn i bs H. induction H; intros t.
   - destruct t; auto.
-  - destruct t; auto.
+  - destruct t; simpl; auto.
   - rewrite Hn in H. discriminate.
 Qed.
 End OnlineFacts.
